@@ -90,10 +90,39 @@ def gauss_solve(a, b):
     return X[:, 0] if vec else X
 
 
+class _NDMeta(type):
+    """np.ndarray stand-in: still answers isinstance(x, np.ndarray), but *constructing* a float array gives a
+    symbolic object array (np.ndarray(shape, dtype=float64, buffer=buf) is how the plans allocate work arrays)"""
+
+    def __instancecheck__(cls, obj):
+        return isinstance(obj, _np.ndarray)
+
+    def __subclasscheck__(cls, sub):
+        return issubclass(sub, _np.ndarray)
+
+    def __call__(cls, shape, dtype=float, buffer=None, offset=0, strides=None, order=None):
+        if isinstance(shape, int):
+            shape = (shape,)
+        if _is_float_dtype(dtype) and (buffer is None or (isinstance(buffer, _np.ndarray) and buffer.dtype == object)):
+            if buffer is None:
+                return _obj_zeros(shape)
+            n = int(_np.prod(shape)) if len(shape) else 1
+            flat = buffer.reshape(-1)
+            if flat.shape[0] < n:
+                raise TypeError("buffer is too small for requested array")
+            return flat[:n].reshape(shape).view(SArr)
+        return _np.ndarray(shape, dtype=dtype, buffer=buffer, offset=offset, strides=strides, order=order)
+
+
+class _SymNDArray(metaclass=_NDMeta):
+    pass
+
+
 class NPShim(object):
     """behaves like the numpy module"""
     pi = PI
     linalg = _Linalg()
+    ndarray = _SymNDArray
 
     def __init__(self, symbolic_alloc=True):
         self._sym = symbolic_alloc
